@@ -142,6 +142,7 @@ def opsSym (op : String) (ins outs : List String) : Option String :=
         | some z2, some q => pure (if ratsIn [q] z2 then "ok component-in-set-value" else "FAIL component-outside-set-value")
         | _, _ => pure "FAIL component-undefined-where-original-defined"
   | "diffunsupported", _, _ => pure "ok diffunsupported"
+  | "resourcelimit", _, _ => pure "ok resource-limit-of-the-symbolic-layer (no claim)"
   | "harnesserror", _, _ => pure "FAIL exception-thrown-by-the-library"
   | _, _, _ => none
 
